@@ -508,3 +508,6 @@ for _s in _ct.SPECS:
         _c = _copy.copy(_s)
         _c.prop = 'C01'
         SPECS.append(_c)
+
+
+_ct._register_dispatcher_cache_under_C07()
